@@ -16,6 +16,14 @@ import (
 
 // scratchFieldOf returns the struct field when v is (a load of) a slice-typed field of a module struct.
 func scratchFieldOf(v ssa.Value) *types.Var {
+	// a view of the slice (S[:cap(S)], S[a:b]) is the same buffer
+	for i := 0; i < 3; i++ {
+		sl, ok := v.(*ssa.Slice)
+		if !ok {
+			break
+		}
+		v = sl.X
+	}
 	ld, ok := v.(*ssa.UnOp)
 	if !ok || ld.Op != token.MUL {
 		return nil
